@@ -300,7 +300,7 @@ _HIST = {
     "C02": ("history_conversions", "conversion routes (Scalar.GetValue, CreateCopy, UnitDatabase.Convert incl. exponent forms, Array.GetValues, construction forms) answer the same after the prelude"),
     "C03": ("history_arithmetic", "+ and - (Scalar and Array, every container kind, exponents other than 1) answer the same after the prelude"),
     "C04": ("history_arithmetic", "* / // (Scalar and Array, every container kind, exponents other than 1) answer the same after the prelude"),
-    "C15": ("history_all", "queries, conversions, arithmetic, validity and interning answer the same after the prelude; the registry reports the same"),
+    "C15": ("history_all", "registration histories interleaved with queries report the same as a fresh database; queries, conversions, arithmetic, validity and interning answer the same after the prelude; the registry reports the same"),
 }
 for _pid, (_probe, _what) in _HIST.items():
     def _mk(base, _probe=_probe, _what=_what, _pid=_pid):
